@@ -5,6 +5,8 @@
 //	globalrand <file>:<func> <call>             uses of math/rand package-level functions, time.Now, crypto/rand
 //	globalvar <file> <name> <type>              package-level variables of mutable type (map, slice, pointer, struct, chan, func)
 //	globalwrite <file>:<func> <name>            assignments to / mutations of package-level variables outside init()
+//	globalalias <file>:<func> <name> <how>      a package-level slice/map/pointer/array is re-sliced, assigned to another variable, returned or has its
+//	                                            address taken outside init(): later writes through that alias do not show as globalwrite
 //	concurrency <file>:<func> <go|select|sync> goroutine starts, select statements and uses of sync / sync/atomic (scheduling-dependent constructs)
 package main
 
@@ -130,9 +132,30 @@ func main() {
 							}
 						}
 					case *ast.AssignStmt:
+						for _, rh := range v.Rhs {
+							if g := aliasable(p.TypesInfo, rh, globals); g != "" && fn != "init" {
+								out = append(out, fmt.Sprintf("globalalias %s:%s %s assigned", fname, fn, g))
+							}
+						}
 						for _, l := range v.Lhs {
 							if g := rootGlobal(p.TypesInfo, l, globals); g != "" && fn != "init" {
 								out = append(out, fmt.Sprintf("globalwrite %s:%s %s", fname, fn, g))
+							}
+						}
+					case *ast.SliceExpr:
+						if g := aliasable(p.TypesInfo, v.X, globals); g != "" && fn != "init" {
+							out = append(out, fmt.Sprintf("globalalias %s:%s %s reslice", fname, fn, g))
+						}
+					case *ast.UnaryExpr:
+						if v.Op == token.AND {
+							if g := rootGlobal(p.TypesInfo, v.X, globals); g != "" && fn != "init" {
+								out = append(out, fmt.Sprintf("globalalias %s:%s %s address", fname, fn, g))
+							}
+						}
+					case *ast.ReturnStmt:
+						for _, r := range v.Results {
+							if g := aliasable(p.TypesInfo, r, globals); g != "" {
+								out = append(out, fmt.Sprintf("globalalias %s:%s %s returned", fname, fn, g))
 							}
 						}
 					case *ast.GoStmt:
@@ -226,6 +249,26 @@ func rootGlobal(info *types.Info, e ast.Expr, globals map[types.Object]bool) str
 			return ""
 		}
 	}
+}
+
+// a bare use of a package-level variable whose value shares storage with the variable (slice, map, pointer)
+func aliasable(info *types.Info, e ast.Expr, globals map[types.Object]bool) string {
+	if pe, ok := e.(*ast.ParenExpr); ok {
+		e = pe.X
+	}
+	id, ok := e.(*ast.Ident)
+	if !ok {
+		return ""
+	}
+	obj := info.Uses[id]
+	if obj == nil || !globals[obj] {
+		return ""
+	}
+	switch obj.Type().Underlying().(type) {
+	case *types.Slice, *types.Map, *types.Pointer, *types.Chan:
+		return id.Name
+	}
+	return ""
 }
 
 func mutableType(t types.Type) bool {
